@@ -125,6 +125,18 @@ def neutral_rewrites(pkg):
         if d.kind == "record" and not d.tparams:
             d.computed = [("calc%d" % i, fn) for i, (fn, ft) in enumerate(d.fields) if ft[0] == "prim" and ft[1] in ("int32", "float32", "int64")][:2]
     out.append(("computed-fields", files_of(p)))
+    # a listed previous version (which differs: one more optional field, one more trailing optional step) is not part of
+    # "the protocol and the named types it transitively uses": the current schema must not depend on its presence
+    p = copy.deepcopy(pkg)
+    prev = copy.deepcopy(p)
+    prev.dirname = p.dirname + "_v0"
+    rec = next((d for d in prev.defs if d.kind == "record" and not d.tparams), None)
+    if rec is not None:
+        rec.fields.append(("zzOnlyInOldVersion", Opt(P("int32"))))
+    for pr in prev.protocols:
+        pr.steps = [st for st in pr.steps][:-1] if len(pr.steps) > 1 and pr.steps[-1][1][0] in ("opt", "vec", "stream") else pr.steps
+    p.versions = [("v0", prev)]
+    out.append(("previous-version-listed", files_of(p)))
     p = copy.deepcopy(pkg)
     for d in p.defs:
         d.comment = "doc for %s\nsecond line" % d.name
